@@ -249,15 +249,47 @@ def run_history(case):
                 if other[0] is None and any(model.values()):
                     other[0] = Workspace.create(os.path.join(d, "other.geoh5"), version=case.get("version", 2.0))
                     cg = g.copy(parent=other[0])
+                    cmodel = {hn: {dn: np.array(v) for dn, v in datas.items()} for hn, datas in model.items()}
+                    csurveys = {}
+                    first = True
+                    for ch in sorted([c for c in cg.children if type(c).__name__.endswith("Drillhole")], key=lambda c: c.name):
+                        # the copy is an independent group: it is edited (values of one data set, the surveys of every hole) ...
+                        if first:
+                            for dname in sorted(ch.get_data_list()):
+                                if dname in ("DEPTH", "FROM", "TO"):
+                                    continue
+                                dat = ch.get_data(dname)[0]
+                                if dat.values is not None and np.asarray(dat.values).dtype.kind == "f" and dname in cmodel.get(ch.name, {}):
+                                    new_vals = (np.asarray(dat.values, dtype=float)[:-1] + 1000.0).astype(np.float32).astype(float)  # shorter: rows move
+                                    dat.values = new_vals.copy()
+                                    kept = np.full(len(cmodel[ch.name][dname]), np.nan)
+                                    kept[: len(new_vals)] = new_vals
+                                    cmodel[ch.name][dname] = kept
+                                    break
+                            first = False
+                        sv = np.c_[np.r_[0.0, 5.0, 10.0 + len(csurveys)], np.ones(3) * 10.0 * (1 + len(csurveys)), np.ones(3) * -80.0]
+                        ch.surveys = sv
+                        csurveys[ch.name] = sv
+                    # ... then closed and read again: what the copy was given is what a later reader of the copy sees
+                    del cg, ch
+                    other[0].close()
+                    bad = _file_tiling(os.path.join(d, "other.geoh5"))
+                    if bad:
+                        return f"after step {step}: the copy of the group in a second workspace, once edited: {bad} ({case})"
+                    other[0] = Workspace(os.path.join(d, "other.geoh5"), mode="r+")
+                    cg = other[0].get_entity("DH")[0]
                     for ch in [c for c in cg.children if type(c).__name__.endswith("Drillhole")]:
-                        for dname in sorted(ch.get_data_list()):
-                            if dname in ("DEPTH", "FROM", "TO"):
+                        got_sv = np.asarray(ch.surveys, dtype=float)
+                        if ch.name in csurveys and (got_sv.shape != csurveys[ch.name].shape or not np.allclose(got_sv, csurveys[ch.name])):
+                            return f"after step {step}: hole {ch.name} of the copied group was given surveys {csurveys[ch.name].tolist()} and reads {got_sv.tolist()} after a re-open ({case})"
+                        for dname, exp in cmodel.get(ch.name, {}).items():
+                            if exp.dtype.kind != "f":
                                 continue
-                            dat = ch.get_data(dname)[0]
-                            if dat.values is not None and np.asarray(dat.values).dtype.kind == "f":
-                                dat.values = np.asarray(dat.values, dtype=float)[:-1] + 1000.0  # shorter: rows move
-                                break
-                        break
+                            gotd = ch.get_data(dname)
+                            gv = None if not gotd or gotd[0].values is None else np.asarray(gotd[0].values, dtype=float)
+                            if gv is None or gv.shape != exp.shape or not np.allclose(gv, exp, equal_nan=True, rtol=1e-6):
+                                return f"after step {step}: {ch.name}/{dname} of the copied group reads {None if gv is None else gv.tolist()} after a re-open, expected {exp.tolist()} ({case})"
+                    del cg
             elif op == "copy_group":
                 # a copy of the whole group inside the same workspace: from now on two groups own rows
                 if ws.get_entity("DH copy")[0] is None:
@@ -334,7 +366,7 @@ class ConcatHistories(Contract):
     has_native = True
     native_shards = 4
     props = ("C04",)
-    bounded_scope = "2 holes x data names {Au, Cu}; operation sequences of length <= 4 (quick: 60 seeded + 42 fixed; thorough: 600) over add / add-with-NaN / remove a whole hole (through the workspace or the group, also straight after a re-open) / copy the group inside the workspace / data stored on the group itself / values attached to a hole as a whole, added and removed in sessions that do nothing else / an idle open-list-close session (file digests unchanged) / interval data in a property group with the group-wide table view compared after every step / a copy into a second workspace edited there / add-text (each text longer than all earlier ones) / update / update-text / remove / re-open; both format versions; per-hole read-back after every step, raw file tiling after every close"
+    bounded_scope = "2 or 3 holes x data names {Au, Cu}; operation sequences of length <= 4 (quick: 60 seeded + 42 fixed; thorough: 600) over add / add-with-NaN / remove a whole hole (through the workspace or the group, also straight after a re-open) / copy the group inside the workspace / data stored on the group itself / values attached to a hole as a whole, added and removed in sessions that do nothing else / an idle open-list-close session (file digests unchanged) / interval data in a property group with the group-wide table view compared after every step / a copy into a second workspace edited there / add-text (each text longer than all earlier ones) / update / update-text / remove / re-open; both format versions; per-hole read-back after every step, raw file tiling after every close"
 
     FIXED = [
         [("add", 0, "Au"), ("add", 1, "Au"), ("remove", 0, "Au"), ("reopen", 0, "")],
@@ -365,10 +397,22 @@ class ConcatHistories(Contract):
             for ops in self.FIXED:
                 for each in (True, False):
                     yield {"holes": 2, "ops": ops, "version": version, "check_each_step": each}
-        for _ in range(60 if tier == "quick" else 600):
+        # three holes sharing a data name: a record that is not the last of its channel is rewritten, then the channel grows
+        THREE = [
+            [("add", 0, "Au"), ("add", 1, "Au"), ("update", 0, "Au"), ("add", 2, "Au"), ("reopen", 0, "")],
+            [("add", 0, "Au"), ("add", 1, "Au"), ("add", 2, "Au"), ("update", 1, "Au"), ("reopen", 0, ""), ("add", 0, "Cu"), ("update", 0, "Au"), ("add", 1, "Cu"), ("reopen", 0, "")],
+            [("add_iv", 0, "Au"), ("add_iv", 1, "Au"), ("update_iv", 0, "Au"), ("add_iv", 2, "Au"), ("remove", 1, "Au_iv"), ("reopen", 0, "")],
+            [("add", 0, "Au"), ("add", 1, "Au"), ("add", 2, "Au"), ("remove", 0, "Au"), ("update", 1, "Au"), ("add", 0, "Au"), ("reopen", 0, "")],
+            [("add_text", 0, "Au"), ("add_text", 1, "Au"), ("update_text", 0, "Au"), ("add_text", 2, "Au"), ("reopen", 0, "")],
+        ]
+        for version in (2.0, 2.1):
+            for ops in THREE:
+                yield {"holes": 3, "ops": ops, "version": version, "check_each_step": True}
+        for k in range(60 if tier == "quick" else 600):
             n = rng.randint(2, 5)
-            ops = [(rng.choice(OPS), rng.randint(0, 1), rng.choice(["Au", "Cu"])) for _ in range(n)]
-            yield {"holes": 2, "ops": ops, "version": rng.choice([2.0, 2.1]), "check_each_step": rng.random() < 0.5}
+            holes = 2 if k % 3 else 3
+            ops = [(rng.choice(OPS), rng.randint(0, holes - 1), rng.choice(["Au", "Cu"])) for _ in range(n + (holes - 2) * 2)]
+            yield {"holes": holes, "ops": ops, "version": rng.choice([2.0, 2.1]), "check_each_step": rng.random() < 0.5}
 
     def native_check(self, case):
         case = dict(case)
